@@ -44,6 +44,13 @@ class MetaRunner(object):
             runner = self._runners[flavour]
         except KeyError:
             if self.running.is_set():
+                if any(flavour is kind.flavour for kind in self.runner_types):
+                    # shutting down: the runners are gone, ``running`` follows in a moment
+                    for payload in payloads:
+                        self._logger.warning(
+                            "discarding payload %s during shutdown", NameRepr(payload)
+                        )
+                    return
                 raise RuntimeError(f"unknown runner {NameRepr(flavour)}") from None
             self._runner_queues.setdefault(flavour, []).extend(payloads)
         else:
